@@ -639,6 +639,37 @@ fn derive_family(report: &Report) {
         roundtrip(report, idx, "struct-with-char", &WithChar { c, s: c.to_string(), n: Newtype(c) });
     }
     idx += 1;
+    // Some(x) for every falsy / empty / default payload: "present" must not be decided by the payload's truthiness
+    for b in [false, true] {
+        idx += 1;
+        roundtrip(report, idx, "option-bool", &Some(b));
+        idx += 1;
+        roundtrip(report, idx, "vec-option-bool", &vec![Some(b), None, Some(!b)]);
+        idx += 1;
+        roundtrip(report, idx, "tuple-option-bool", &(Some(b), 1i64, None::<bool>));
+        idx += 1;
+        roundtrip(report, idx, "map-option-bool", &BTreeMap::from([("k".to_string(), Some(b)), ("n".to_string(), None)]));
+        idx += 1;
+        roundtrip(report, idx, "struct-option-bool", &WithOptBool { flag: Some(b), other: None, n: 1 });
+        idx += 1;
+        roundtrip(report, idx, "option-option-bool", &vec![Some(Some(b))]);
+    }
+    idx += 1;
+    roundtrip(report, idx, "option-zero-int", &(Some(0i64), Some(0u8), Some(-0i32)));
+    idx += 1;
+    roundtrip(report, idx, "option-zero-float", &(Some(0.0f64), Some(0.5f64)));
+    idx += 1;
+    roundtrip(report, idx, "option-empty-string", &(Some(String::new()), Some(" ".to_string())));
+    idx += 1;
+    roundtrip(report, idx, "option-empty-vec", &(Some(Vec::<i64>::new()), Some(vec![Vec::<bool>::new()])));
+    idx += 1;
+    roundtrip(report, idx, "option-empty-map", &Some(BTreeMap::<String, bool>::new()));
+    idx += 1;
+    roundtrip(report, idx, "option-map-of-false", &Some(BTreeMap::from([("k".to_string(), false)])));
+    idx += 1;
+    roundtrip(report, idx, "bare-false", &false);
+    idx += 1;
+    roundtrip(report, idx, "vec-bool", &vec![false, true, false]);
     roundtrip(report, idx, "unit", &());
     roundtrip(report, idx, "unit-struct", &UnitStruct);
     roundtrip(report, idx, "small-ints", &(-128i8, 255u8, -32768i16, 65535u16, i32::MIN, u32::MAX));
@@ -648,6 +679,13 @@ fn derive_family(report: &Report) {
     report.nontrivial.fetch_add(nontriv, Ordering::Relaxed);
     report.sample(json!({"family": "derive vs serde", "type": "Nested", "templates": PROBES}));
     report.family(FamilyStat { name: "derive(ObjectView, ValueView) vs serde conversion".into(), cases: n, nontrivial: nontriv, skipped: 0, note: format!("{idx} instances of 6 derived structs + 4 enum shapes + tuples/options/maps x {} probing templates; Rust -> Liquid -> Rust round trips", PROBES.len()) });
+}
+
+#[derive(serde::Serialize, serde::Deserialize, PartialEq, Debug)]
+struct WithOptBool {
+    flag: Option<bool>,
+    other: Option<bool>,
+    n: i64,
 }
 
 fn roundtrip<T: serde::Serialize + serde::de::DeserializeOwned + PartialEq + std::fmt::Debug>(report: &Report, idx: u64, label: &str, t: &T) {
